@@ -15,6 +15,9 @@ VERIF = os.path.dirname(HERE)
 sys.path.insert(0, VERIF)
 
 
+_BASE = {}      # per worker process: findings of each check on the unchanged tree
+
+
 def one(d):
     from sa.selftest import run_check
     sdir = os.path.join(VERIF, "seeded", d)
@@ -27,7 +30,9 @@ def one(d):
         fired = {}
         for i in range(1, 21):
             pid = "C%02d" % i
-            base_code, base_keys, _ = run_check(pid, "/repo")
+            if pid not in _BASE:
+                _BASE[pid] = run_check(pid, "/repo")[1]
+            base_keys = _BASE[pid]
             code, keys, err = run_check(pid, tmp)
             new = [k for k in keys if k not in base_keys]
             if code == 2:
@@ -41,6 +46,8 @@ def one(d):
 
 def main():
     ds = sorted(os.listdir(os.path.join(VERIF, "seeded")))
+    if len(sys.argv) > 1:
+        ds = [d for d in ds if any(a in d for a in sys.argv[1:])]
     with ProcessPoolExecutor(max_workers=12) as ex:
         for d, fired, err in ex.map(one, ds):
             mp = os.path.join(VERIF, "seeded", d, "meta.json")
